@@ -41,4 +41,93 @@ def sepOk (sep : List Char) : Bool := !sep.isEmpty && !startsWithDigit sep
 /-- … and, for rationals, does not look like the start of a denominator -/
 def sepOkRat (sep : List Char) : Bool := sepOk sep && !looksLikeDen sep
 
+/-! ### reference parser for the infix form that `Poly1Dom::write` emits (the library has no such reader)
+
+    poly ::= "0" | term (" + " term)*          terms by strictly increasing degree, no zero coefficient
+    term ::= "1" | "(" int ")"                 degree 0 (first term only)
+           | ["(" int ")*"] name ["^" nat]     degree 1 without exponent, degree ≥ 2 with it; coefficient one is not written
+    The parser knows the indeterminate name of the domain. -/
+
+def stripPrefix : List Char → List Char → Option (List Char)
+  | [], t => some t
+  | _ :: _, [] => none
+  | a :: p, b :: t => if a = b then stripPrefix p t else none
+
+/-- optional `-`, then a non-empty maximal run of digits -/
+def readIntPrefix (t : List Char) : Option (Int × List Char) :=
+  let neg := t.head? = some '-'
+  let b := if neg then t.drop 1 else t
+  let ds := b.takeWhile isDigit
+  if ds.isEmpty then none
+  else some ((if neg then -(digitsValue ds : Int) else (digitsValue ds : Int)), b.dropWhile isDigit)
+
+def readNatPrefix (t : List Char) : Option (Nat × List Char) :=
+  let ds := t.takeWhile isDigit
+  if ds.isEmpty then none else some (digitsValue ds, t.dropWhile isDigit)
+
+/-- what follows the indeterminate: `^l` with `l ≥ 2`, or nothing (degree 1) -/
+def degreePart (c : Int) (t : List Char) : Option (Int × Nat × List Char) :=
+  match t with
+  | [] => some (c, 1, [])
+  | a :: t' =>
+    if a = '^' then
+      match readNatPrefix t' with
+      | none => none
+      | some (l, t'') => if 2 ≤ l then some (c, l, t'') else none
+    else some (c, 1, a :: t')
+
+/-- one term: (coefficient, degree, unread text) -/
+def parseTerm (x : List Char) (t : List Char) : Option (Int × Nat × List Char) :=
+  match t with
+  | [] => none
+  | a :: t1 =>
+    if a = '(' then
+      match readIntPrefix t1 with
+      | none => none
+      | some (c, t2) =>
+        match t2 with
+        | [] => none
+        | b :: t3 =>
+          if b ≠ ')' then none
+          else if c = 1 then none                       -- a coefficient one is never written in parentheses
+          else
+            match t3 with
+            | [] => some (c, 0, [])
+            | d :: t4 =>
+              if d = '*' then (stripPrefix x t4).bind (degreePart c)
+              else some (c, 0, d :: t4)
+    else
+      match stripPrefix x (a :: t1) with
+      | some t' => degreePart 1 t'
+      | none => if a = '1' then some (1, 0, t1) else none
+
+/-- terms separated by `" + "`; `k` = number of coefficients already produced (the next degree allowed) -/
+def parseLoop (x : List Char) : Nat → Nat → List Int → List Char → Option (List Int)
+  | 0, _, _, _ => none
+  | f + 1, k, acc, t =>
+    match parseTerm x t with
+    | none => none
+    | some (c, l, rest) =>
+      if c = 0 ∨ l < k then none
+      else
+        match rest with
+        | [] => some (acc ++ List.replicate (l - k) 0 ++ [c])
+        | r :: rs =>
+          match stripPrefix [' ', '+', ' '] (r :: rs) with
+          | some t' => parseLoop x f (l + 1) (acc ++ List.replicate (l - k) 0 ++ [c]) t'
+          | none => none
+
+/-- the polynomial (coefficients `c_0 …`, degree-normalised) that an infix text denotes; `none` = not well-formed -/
+def parsePoly (x : List Char) (t : List Char) : Option (List Int) :=
+  match parseLoop x (t.length + 1) 0 [] t with
+  | some P => some P
+  | none => if t = ['0'] then some [] else none
+
+/-- indeterminate names for which the infix form is unambiguous: non-empty, not starting with a digit or `(`
+    (with the name `1` the texts of `1` and of the indeterminate coincide) -/
+def nameOk (x : List Char) : Bool :=
+  match x with
+  | [] => false
+  | c :: _ => !isDigit c && c != '('
+
 end Givaro.Spec.Text
